@@ -8,8 +8,8 @@ from __future__ import annotations
 
 import itertools
 import json
+import sys
 from fractions import Fraction
-from statistics import median
 
 from vlib import core
 from vlib import translate
@@ -33,21 +33,48 @@ def somes(ev):
     return [Fraction(x) for x in ev["values"] if x is not None]
 
 
+# The oracle decides by exact magnitude.  It also notes whether an INTERMEDIATE of the documented computation (a
+# difference, the sum of the two middle elements of a median) exceeds the float range: there numpy/Python produce inf
+# (and inf/inf = nan) although inputs and the documented change are finite.  A disagreement on such a case is a
+# candidate finding (counted, witness kept in the evidence notes), an exception is a violation like everywhere else.
+FLOAT_MAX = Fraction(sys.float_info.max)
+_RISK = [False]
+
+
+def _chk(x):
+    if abs(x) > FLOAT_MAX:
+        _RISK[0] = True
+    return x
+
+
+def median(l):
+    s_ = sorted(l)
+    n = len(s_)
+    if n % 2:
+        return s_[n // 2]
+    return _chk(s_[n // 2 - 1] + s_[n // 2]) / 2
+
+
+def near_threshold(q, thr):
+    """the float comparison q < thr cannot be trusted: q is within 1e-9 (relative) of thr but not equal to it"""
+    return 0 < abs(q - thr) <= MARGIN * max(abs(q), abs(thr))
+
+
 def directed(a, b):
-    return median([min(abs(x - y) for y in b) for x in a])
+    return median([min(_chk(abs(x - y)) for y in b) for x in a])
 
 
 def pop_distance(p, c):
     e1, e2 = somes(p), somes(c)
-    return max(directed(e1, e2), directed(e2, e1), abs(Fraction(p["best"]) - Fraction(c["best"])))
+    return max(directed(e1, e2), directed(e2, e1), _chk(abs(Fraction(p["best"]) - Fraction(c["best"]))))
 
 
 def change_and_reference(kind, p, c):
     """(documented change in absolute magnitude, |reference| or None for the absolute criteria)"""
     if kind == "best":
-        return abs(Fraction(p["best"]) - Fraction(c["best"])), None
+        return _chk(abs(Fraction(p["best"]) - Fraction(c["best"]))), None
     if kind == "bestrel":
-        return abs(Fraction(p["best"]) - Fraction(c["best"])), abs(Fraction(p["best"]))
+        return _chk(abs(Fraction(p["best"]) - Fraction(c["best"]))), abs(Fraction(p["best"]))
     if kind == "pop":
         return pop_distance(p, c), None
     if kind == "poprel":
@@ -59,10 +86,10 @@ def below(kind, thr, p, c):
     """(decision, near): near = the float quotient is too close to the threshold to be compared."""
     d, ref = change_and_reference(kind, p, c)
     if ref is None:
-        return d < thr, False
+        return d < thr, near_threshold(d, thr)
     if ref == 0:
         return False, False  # no change is small relative to a reference of zero
-    return d < thr * ref, 0 < abs(d / ref - thr) <= MARGIN  # an exactly representable quotient is computed exactly
+    return d < thr * ref, near_threshold(d / ref, thr)  # an exactly representable quotient is computed exactly
 
 
 def spec_segment(kind, thr, v, h):
@@ -142,10 +169,10 @@ def impl_crit(case):
 
 # ------------------------------------------------------------------ SPSA: specification and implementation
 def rel_below(thr, pf, cf):
-    d, ref = abs(Fraction(cf) - Fraction(pf)), abs(Fraction(pf))
+    d, ref = _chk(abs(Fraction(cf) - Fraction(pf))), abs(Fraction(pf))
     if ref == 0:
         return False, False
-    return d < thr * ref, 0 < abs(d / ref - thr) <= MARGIN  # an exactly representable quotient is computed exactly
+    return d < thr * ref, near_threshold(d / ref, thr)  # an exactly representable quotient is computed exactly
 
 
 def spsa_run_spec(thr, v, maxfev, run):
@@ -242,8 +269,18 @@ THR_ANY = [0.5, 0.25, 0.125, 1.0, 2.0, 0.1, 0.3, 0.0, -0.5, -1.0, 1.5, 0.75]
 THR_UNIT = [0.5, 0.25, 0.125, 1.0, 0.1, 0.3, 0.75, 0.01]
 
 
+# finite but extreme magnitudes: subnormal, 1e-200, 1e200, near the float maximum (sums / differences of two may overflow)
+EXTREME = [5e-324, 4e-310, 1e-200, 1e-100, 1.0, 3.0, 1e100, 1e200, 5e307, 8e307, 1e308, 1.5e308, 1.7e308]
+
+
 def gen_value(rng, prev=None, style=0):
     r = rng.random()
+    if style == 4:
+        if prev is not None and r < 0.3:
+            return prev
+        if r < 0.4:
+            return rng.choice([0.0, 1.0, -1.0, 3.0, -4.0])
+        return rng.choice(EXTREME) * rng.choice([1, 1, -1])
     if prev is not None and r < 0.3:
         return prev + rng.choice([0.0, 0.0, 0.125, -0.125, 0.25, -0.25, 0.5, -0.5]) if abs(prev) < 8 else prev
     if r < 0.6:
@@ -257,6 +294,19 @@ def gen_value(rng, prev=None, style=0):
 
 
 def gen_eval(rng, kind, prev, style):
+    if kind in ("pop", "poprel") and style == 4:
+        if prev is not None and rng.random() < 0.3:
+            return json.loads(json.dumps(prev))
+        size = rng.choice([1, 2, 2, 2, 3, 4, 4])
+        if rng.random() < 0.3:  # a population of one repeated extreme value (even size: the median's middle pair sum)
+            x = gen_value(rng, None, 4)
+            vals = [x] * size
+        else:
+            base = prev["values"] if prev is not None and rng.random() < 0.5 else []
+            vals = [gen_value(rng, base[i] if i < len(base) else None, 4) for i in range(size)]
+        if size > 2 and rng.random() < 0.2:
+            vals[rng.randrange(size)] = None
+        return {"best": min(x for x in vals if x is not None), "values": vals}
     if kind in ("pop", "poprel"):
         if style == 3:  # quiet history: small nudges of the previous population, now and then a median of exactly zero
             r = rng.random()
@@ -288,7 +338,14 @@ def gen_eval(rng, kind, prev, style):
     return {"best": b, "values": [b]}
 
 
-def gen_crit_case(rng, kind):
+def gen_crit_case(rng, kind, extreme=False):
+    if extreme:
+        thr = rng.choice(THR_UNIT + ([0.5, 2.0, 3.0, 1e-3, 0.0] if kind != "bestrel" else [1e-3]))
+        ops, prev = [], None
+        for _ in range(rng.randint(2, 5)):
+            prev = gen_eval(rng, kind, prev, 4)
+            ops.append(prev)
+        return {"type": "crit", "kind": kind, "thr": thr, "v": rng.choice([0, 0, 1, 2]), "dtype": rng.choice(["np", "np", "py"]), "ops": ops, "family": "extreme"}
     if kind == "best":
         thr = rng.choice(THR_ANY[:6] * 3 + THR_ANY)
     elif kind == "bestrel":
@@ -318,11 +375,11 @@ def gen_crit_case(rng, kind):
     return {"type": "crit", "kind": kind, "thr": thr, "v": v, "dtype": rng.choice(["py", "py", "np"]), "ops": ops}
 
 
-def gen_spsa_case(rng, structured=True):
+def gen_spsa_case(rng, structured=True, extreme=False):
     thr = rng.choice(THR_UNIT + [0.5, 0.25, 2.0, 0.0, -0.5])
     v = rng.choice([0, 0, 1, 2, 3])
     maxfev = rng.choice([None, None, None, 7, 10, 16])
-    style = rng.choice([0, 0, 1, 2])
+    style = 4 if extreme else rng.choice([0, 0, 1, 2])
     thrq = Fraction(thr)
     runs = []
     first = rng.choice([2, 2, 3, 4])  # one optimiser configuration: every run's first callback carries the same count
@@ -377,12 +434,15 @@ def first_failure_crit(case, impl=None):
         return (f"ctor-{kind}-accepts", f"{KINDS[kind][1]} accepts threshold {case['thr']} / allowed violations {v} against its documented range", 0)
     if malformed(case):
         return None
+    _RISK[0] = False
     spec, near = spec_crit(case)
     if near:
         return "near"
     for i, (a, s) in enumerate(zip(impl, spec)):
         if isinstance(a, tuple):
             return (f"raises-{kind}-{a[1]}", f"{KINDS[kind][1]}.check_termination raised {a[1]} on a finite history (evaluation #{i})", i)
+        if a != s and _RISK[0]:
+            return ("candidate", f"{KINDS[kind][1]} answered {a} at evaluation #{i}; the documented change measure (exact) says {s}; an intermediate sum/difference exceeds the float range", i)
         if a != s:
             return (f"answer-{kind}-{'premature' if a else 'missed'}",
                     f"{KINDS[kind][1]} answered {a} at evaluation #{i}; the documented change measure says {s}", i)
@@ -392,6 +452,7 @@ def first_failure_crit(case, impl=None):
 def first_failure_spsa(case, impl=None):
     impl = impl_spsa(case) if impl is None else impl
     thr, v, mf = Fraction(case["thr"]), case["v"], case["maxfev"]
+    _RISK[0] = False
     if case["structured"]:
         spec, near = [], False
         for run in case["runs"]:
@@ -405,6 +466,8 @@ def first_failure_spsa(case, impl=None):
     for i, (a, s) in enumerate(zip(impl, spec)):
         if isinstance(a["answer"], tuple):
             return (f"raises-spsa-{a['answer'][1]}", f"SPSATerminationChecker.termination_check raised {a['answer'][1]} on finite inputs (callback #{i})", i)
+        if a["answer"] != s["answer"] and _RISK[0]:
+            return ("candidate", f"SPSATerminationChecker answered {a['answer']} at callback #{i}; exact magnitude says {s['answer']}; a difference exceeds the float range", i)
         if a["answer"] != s["answer"]:
             tag = "run-boundary" if case.get("boundary_witness") else ("premature" if a["answer"] else "missed")
             # a corpus history that reproduces a listed known finding is reported under that finding's own key
@@ -478,6 +541,17 @@ def do_case(ctx, case, count=True):
     impl = impl_crit(case) if case["type"] == "crit" else impl_spsa(case)
     f = first_failure(case, impl)
     label = case["kind"] if case["type"] == "crit" else "spsa"
+    if isinstance(f, tuple) and f[0] == "candidate":
+        # HEAD answers against the exact magnitude because an intermediate overflowed: candidate finding, not demanded
+        ctx.tally("candidate-finding:intermediate-overflow")
+        ctx.notes.setdefault("candidate_findings", [])
+        if len(ctx.notes["candidate_findings"]) < 3:
+            ctx.notes["candidate_findings"].append(dict(what=f[1], case=case, implementation=impl))
+        return None
+    if case.get("family") == "extreme" or (case["type"] == "spsa" and case.get("family") == "extreme"):
+        ctx.tally(f"{label}:extreme-magnitudes")
+        if _RISK[0]:
+            ctx.tally(f"{label}:extreme:intermediate-beyond-float-range")
     if f == "near":
         ctx.tally("skipped:near-threshold")
         return None
@@ -526,7 +600,7 @@ def nontrivial(case):
 def run(ctx):
     translate.check_link(ctx, "C13")  # regenerate Gallina from /repo's current source; link lemmas coq/link/C13Link.v
     ctx.rule = ("per criterion: operation sequences of 1-12 evaluations (dyadic values in [-8,8], many zeros/repeats/sign changes; populations of 1-6 with None entries) "
-                "with reset_state in between, thresholds incl. 0 and negatives, allowed violations 0-3 (and -1), Python float and numpy.float64 inputs; "
+                "with reset_state in between, an extreme-magnitude family (finite values from subnormal to 1.7e308, even-sized populations, numpy.float64), thresholds incl. 0 and negatives, allowed violations 0-3 (and -1), Python float and numpy.float64 inputs; "
                 "SPSA: 1-5 optimiser runs of callbacks (same first count per run, single-callback runs, equal-counter boundaries, rejected steps, maxfev, restarts) and arbitrary callback sequences; "
                 "distinct = distinct case data; non-trivial = at least two evaluations / callbacks (a change is measured)")
     cases = []
@@ -543,6 +617,14 @@ def run(ctx):
         assert structured_ok(cases[-1]), cases[-1]
     for _ in range(ctx.n(200, 4000)):
         cases.append(gen_spsa_case(ctx.rng, structured=False))
+    # finite but extreme magnitudes (subnormal .. 1.7e308), mostly numpy.float64: decided by exact magnitude, never an exception
+    for kind in ("best", "bestrel", "pop", "poprel"):
+        for _ in range(ctx.n(120 if kind.startswith("pop") else 50, 3000)):
+            cases.append(gen_crit_case(ctx.rng, kind, extreme=True))
+    for _ in range(ctx.n(60, 1500)):
+        c = gen_spsa_case(ctx.rng, structured=False, extreme=True)
+        c["family"] = "extreme"
+        cases.append(c)
     if not ctx.quick:
         cases += list(exhaustive_cases())
         ctx.notes["exhaustive_small_scope"] = "all histories of length <= 4 over {-1,0,1,2}: four windowed criteria x 2 thresholds x v in {0,1}; SPSA x v in {0,1}"
